@@ -405,7 +405,7 @@ fn c02f_xz_empty_file_writer() {
     kani::cover!(true, "end reached");
 }
 
-//@ {"name":"c02f_xz_empty_file_reader","props":["C02","C12"],"obligation":"C02-F","timeout":1800,"mem_gb":9,"functions":["xz::reader::XZReader::read","xz::reader::XZReader::prepare_next_block","xz::reader::XZReader::parse_index_and_footer"],"bounds":"the canonical 32-byte empty stream, check type symbolic over None/CRC32/CRC64 ids in the flags (bytes concrete per id); one read call; unwind 14","assumes":[]}
+//@ {"name":"c02f_xz_empty_file_reader","props":["C02","C12"],"no_inputs":true,"obligation":"C02-F","timeout":1800,"mem_gb":9,"functions":["xz::reader::XZReader::read","xz::reader::XZReader::prepare_next_block","xz::reader::XZReader::parse_index_and_footer"],"bounds":"the canonical 32-byte empty stream, check type symbolic over None/CRC32/CRC64 ids in the flags (bytes concrete per id); one read call; unwind 14","assumes":[]}
 #[kani::proof]
 #[kani::unwind(14)]
 fn c02f_xz_empty_file_reader() {
